@@ -15,11 +15,12 @@ validates the translators themselves (run by hand; results quoted in DESIGN.md 1
 import os, re, subprocess, sys, tempfile, shutil
 HERE = os.path.dirname(os.path.abspath(__file__))
 sys.path.insert(0, HERE)
-import extract_cmp, extract_bmca
+import extract_cmp, extract_bmca, extract_announce
 REPO = os.environ.get("VERIF_REPO", "/repo")
 LEAN = os.path.join(HERE, "..", "lean")
 CMP = "statime/src/bmc/dataset_comparison.rs"
 BMCA = "statime/src/bmc/bmca.rs"
+MSG = "statime/src/datastructures/messages/mod.rs"
 
 # (name, file, old, new, expect) — expect: "break" or "hold"
 MUTANTS = [
@@ -59,11 +60,33 @@ MUTANTS = [
     ("d0: Equal counts as Worse", BMCA, "Ordering::Equal => MessageComparison::Same,", "Ordering::Equal => MessageComparison::Worse(best),", "break"),
     ("d0: Less and Greater swapped", BMCA, "Ordering::Less => MessageComparison::Worse(best),\n                    Ordering::Equal => MessageComparison::Same,\n                    Ordering::Greater => MessageComparison::Better,",
      "Ordering::Greater => MessageComparison::Worse(best),\n                    Ordering::Equal => MessageComparison::Same,\n                    Ordering::Less => MessageComparison::Better,", "break"),
+    ("announce: leap flags crossed", MSG, "leap59: time_properties_ds.leap_indicator == LeapIndicator::Leap59,\n            leap61: time_properties_ds.leap_indicator == LeapIndicator::Leap61,",
+     "leap59: time_properties_ds.leap_indicator == LeapIndicator::Leap61,\n            leap61: time_properties_ds.leap_indicator == LeapIndicator::Leap59,", "break"),
+    ("announce: traceable flags crossed", MSG, "time_tracable: time_properties_ds.time_traceable,\n            frequency_tracable: time_properties_ds.frequency_traceable,",
+     "time_tracable: time_properties_ds.frequency_traceable,\n            frequency_tracable: time_properties_ds.time_traceable,", "break"),
+    ("announce: priority2 from priority1", MSG, "grandmaster_priority_2: global.parent_ds.grandmaster_priority_2,", "grandmaster_priority_2: global.parent_ds.grandmaster_priority_1,", "break"),
+    ("announce: utc valid flag dropped", MSG, "            current_utc_offset_valid: time_properties_ds.current_utc_offset.is_some(),\n", "", "break"),
+    ("announce: always two-step", MSG, "            ptp_timescale: time_properties_ds.ptp_timescale,\n            time_tracable",
+     "            ptp_timescale: time_properties_ds.ptp_timescale,\n            two_step_flag: true,\n            time_tracable", "break"),
+    ("announce: body fields re-ordered (same meaning)", MSG, "            grandmaster_priority_2: global.parent_ds.grandmaster_priority_2,\n            grandmaster_identity: global.parent_ds.grandmaster_identity,",
+     "            grandmaster_identity: global.parent_ds.grandmaster_identity,\n            grandmaster_priority_2: global.parent_ds.grandmaster_priority_2,", "hold"),
+    ("base_header: domain from sdo id (not recognised: degrades, left to the streams)", MSG, "domain_number: default_ds.domain_number,", "domain_number: default_ds.sdo_id.0 as u8,", "degrade"),
 ]
 
 
-def section():
-    s = open(os.path.join(LEAN, "StatimeModel/Props/C05.lean")).read()
+# on the unchanged tree every item is recognised: none of the translated theorems is vacuous
+COMPLETE = """
+open Statime in
+example : Generated.cmpDispatch.isSome ∧ Generated.figure35Arms.isSome ∧ Generated.figure34Chain.isSome ∧
+    Generated.figure34Arms.isSome ∧ Generated.asOrderingTable.isSome ∧ Generated.ofAnnounceTable.isSome ∧
+    Generated.ofOwnTable.isSome ∧ Generated.accuracyComparedByOctet = some true ∧ Generated.decisionTable.isSome ∧
+    Generated.announceFlagTable.isSome ∧ Generated.announceBodyTable.isSome ∧
+    Generated.announceBaseHeaderAsModelled = some true := by decide
+"""
+
+
+def section(pid="C05"):
+    s = open(os.path.join(LEAN, f"StatimeModel/Props/{pid}.lean")).read()
     a = s.index("section Translated"); b = s.index("end Translated") + len("end Translated")
     return s[a:b]
 
@@ -75,6 +98,7 @@ def body(text):
 def main():
     tmp = tempfile.mkdtemp(prefix="xlate-selftest-")
     sec = section()
+    sec11 = section("C11")
     bad = 0
     try:
         for i, (name, rel, old, new, expect) in enumerate(MUTANTS):
@@ -90,15 +114,16 @@ def main():
                 return t
             out, deg = {}, []
             w = lambda n, t: out.__setitem__(n, t)
-            extract_cmp.run(read, w, deg); extract_bmca.run(read, w, deg)
-            lean = ("import StatimeModel.Lemmas.CmpGen\nimport StatimeModel.Lemmas.DecisionGen\n" +
-                    body(out["DatasetComparison.lean"]) + body(out["StateDecision.lean"]) +
-                    "\nnamespace Statime.C05\nopen Statime\n" + sec + "\nend Statime.C05\n")
+            extract_cmp.run(read, w, deg); extract_bmca.run(read, w, deg); extract_announce.run(read, w, deg)
+            lean = ("import StatimeModel.Lemmas.CmpGen\nimport StatimeModel.Lemmas.DecisionGen\nimport StatimeModel.Lemmas.AnnounceGen\n" +
+                    body(out["DatasetComparison.lean"]) + body(out["StateDecision.lean"]) + body(out["AnnounceCtor.lean"]) +
+                    "\nnamespace Statime.C05\nopen Statime\n" + sec + "\nend Statime.C05\n" +
+                    "\nnamespace Statime.C11\nopen Statime\n" + sec11 + "\nend Statime.C11\n" + (COMPLETE if not old else ""))
             path = os.path.join(tmp, f"m{i}.lean")
             open(path, "w").write(lean)
             r = subprocess.run(["lake", "env", "lean", path], cwd=LEAN, capture_output=True, text=True)
             failed = r.returncode != 0 or "error" in r.stdout
-            got = "break" if failed else "hold"
+            got = "break" if failed else ("degrade" if deg else "hold")
             first = next((l for l in r.stdout.split("\n") if "error" in l), "")
             thm = ""
             if failed:
